@@ -42,7 +42,7 @@ def parse_prog(s):
 
 def prog_str(prog):
     def tok(o):
-        return o["op"] + (str(o["n"]) if o["op"] in ("de", "em", "tk", "tr", "fr") else "")
+        return o["op"] + (str(o["n"]) if o["op"] in ("de", "em", "tk", "tr", "fr", "adv") else "")
     return "_".join(".".join(tok(o) for o in th) or "x" for th in prog)
 
 
@@ -68,6 +68,13 @@ def params_of(c, dv=8, dn=16):
     s = "prog=%s,after=%s" % (prog_str(c["prog"]), lists_str(c["after"]))
     if kind != "tid":
         s += ",n=%d,fr=%s,dv=%d,dn=%d" % (c["n"], ".".join(map(str, c["fr"])) or "x", dv, dn)
+        # version bases the value dictionary has to cover: every sum of white-box version jumps
+        adv = [o["n"] for th in c["prog"] for o in th if o["op"] == "adv"]
+        bases = set()
+        for k in adv:
+            bases |= {k} | {b + k for b in bases}
+        if bases:
+            s += ",db=%s" % ".".join(map(str, sorted(bases)[:8]))
     if kind == "ids":
         s += ",own=%s" % lists_str(c["own"])
     if kind == "box":
@@ -246,6 +253,8 @@ def steps_of(m):
         return 2      # for_each: snapshot of the vector, then next_value
     if m["k"] == "ret" and m["op"] == "em":
         return 2      # unsafe_get indexes the slot vector before the driver's ret event
+    if m["k"] == "call" and m["op"] == "adv":
+        return 1      # the schedule point before the jump
     return 1
 
 
@@ -347,8 +356,13 @@ def script_of(c, evs):
 
 
 def tlc_behaviours(mc_tla, cfg, num, depth, seed, workdir, lib_dirs=None):
-    """TLC -simulate on the L2 model: returns [(configuration, script)]"""
+    """TLC -simulate on the L2 model: returns [(configuration, script)] (cached per specification / seed)"""
+    import json
     import vlib
+    key = vlib._hash_files(vlib.spec_closure(mc_tla) + [cfg], "sim%d_%d_%d" % (num, depth, seed))
+    cp = os.path.join(vlib.BUILD, "tlc_cache", "sim_" + key + ".json")
+    if os.path.exists(cp) and not lib_dirs:
+        return [(c, st) for c, st in json.load(open(cp))]
     shutil.rmtree(workdir, ignore_errors=True)
     os.makedirs(workdir)
     libs = (lib_dirs or []) + [os.path.dirname(mc_tla), os.path.join(vlib.SPEC, "lib"), os.path.join(vlib.SPEC, "mo")]
@@ -363,6 +377,9 @@ def tlc_behaviours(mc_tla, cfg, num, depth, seed, workdir, lib_dirs=None):
         if b:
             out.append((b[0], script_of(*b)))
     shutil.rmtree(workdir, ignore_errors=True)
+    if not lib_dirs:
+        os.makedirs(os.path.dirname(cp), exist_ok=True)
+        json.dump(out, open(cp, "w"))
     return out
 
 
@@ -378,7 +395,7 @@ def logged_order(events):
             out.append(t)
         elif k in ("sp", "got", "ret"):
             out.append(t)
-        elif k == "call" and e.get("op") not in ("tk", "tr"):
+        elif k == "call" and e.get("op") not in ("tk", "tr", "adv"):
             out.append(t)
     return out
 
